@@ -473,11 +473,25 @@ const c12WatchdogFull = 20 * time.Second
 // further op would wait the full period again — later ops use a short period so that the run still ends
 var c12Hung atomic.Bool
 
+// c12Leaked is set once a flushLoop goroutine was found alive after Stop
+var c12Leaked atomic.Bool
+
+// c12Hangs counts the expired watchdogs
+var c12Hangs atomic.Int32
+
 func c12Watchdog() time.Duration {
-	if c12Hung.Load() {
+	switch n := c12Hangs.Load(); {
+	case n == 0 && !c12Hung.Load():
+		return c12WatchdogFull
+	case n <= 20:
 		return 300 * time.Millisecond
 	}
-	return c12WatchdogFull
+	return 20 * time.Millisecond // the implementation blocks again and again: just get through the remaining ops
+}
+
+func c12NoteHang() {
+	c12Hung.Store(true)
+	c12Hangs.Add(1)
 }
 
 // c12Call runs f under a watchdog; false = it did not return
@@ -488,7 +502,7 @@ func c12Call(f func()) bool {
 	case <-done:
 		return true
 	case <-time.After(c12Watchdog()):
-		c12Hung.Store(true)
+		c12NoteHang()
 		return false
 	}
 }
@@ -549,7 +563,7 @@ func c12AwaitLoopIdle() bool {
 			return true
 		}
 		if time.Now().After(deadline) {
-			c12Hung.Store(true)
+			c12NoteHang()
 			return false
 		}
 		time.Sleep(20 * time.Microsecond)
@@ -562,13 +576,18 @@ func c12LoopAlive() bool {
 	c12StackMu.Lock()
 	defer c12StackMu.Unlock()
 	buf := c12StackBuf
-	deadline := time.Now().Add(2 * time.Second)
+	wait := 2 * time.Second
+	if c12Hung.Load() || c12Leaked.Load() {
+		wait = 10 * time.Millisecond // a blocked or leaked loop is already on record: it will not go away
+	}
+	deadline := time.Now().Add(wait)
 	for {
 		n := runtime.Stack(buf, true)
 		if !bytes.Contains(buf[:n], []byte("BufferedWriteSyncer).flushLoop")) {
 			return false
 		}
 		if time.Now().After(deadline) {
+			c12Leaked.Store(true)
 			return true
 		}
 		time.Sleep(50 * time.Microsecond)
@@ -683,7 +702,7 @@ func c12Seq(op c12Op) Result {
 			select {
 			case clk.ch <- time.Unix(0, 0):
 			case <-time.After(c12Watchdog()):
-				c12Hung.Store(true)
+				c12NoteHang()
 				return Result{Impl: map[string]any{"deadlock": i}, Oracle: bad("C12:deadlock", "the flush loop did not take a tick (op %d) within %v", i, c12Watchdog()), Nontrivial: true, Shape: "seq/deadlock"}
 			}
 			// processed = the goroutine is parked in its select again (no reliance on the sink seeing a Sync)
